@@ -85,16 +85,53 @@ pub fn worker_main(chan: &Channel, a: WorkerArgs) {
     let mut i = a.from;
     while i < a.to {
         chan.send(&format!("{{\"t\":\"begin\",\"run\":{}}}", i));
-        let mut ctx = Ctx { chan, prop: a.prop.clone(), seed: a.seed, run: i, run_seed: run_seed(a.seed, &a.prop, i), step: 0, tier: a.tier.clone(), dump: a.dump.clone(), stats: Stats::default(), digest: 0, verif: a.verif.clone() };
-        let violations: Vec<Replay> = match a.prop.as_str() {
-            "C03" => crate::c03::run(&mut ctx, &corpus),
-            "C10" => crate::c10::run(&mut ctx, &corpus),
-            "C14" => crate::c14::run(&mut ctx, &corpus),
-            _ => panic!("unknown property"),
-        };
-        let line = serde_json::json!({"t": "end", "run": i, "steps": ctx.step, "stats": ctx.stats, "violations": violations, "digest": format!("{:016x}", ctx.digest)});
-        chan.send(&line.to_string());
+        // One simulated run = one process: the run is executed in a forked
+        // child, so that process-wide state (statics, once-initialised
+        // tables) an assembly leaves behind can only come from the run's own
+        // plan. That keeps every run a pure function of its plan — and its
+        // replay in a fresh process faithful — whatever the code under test
+        // keeps in globals. (No simulated thread is alive at this point.)
+        let pid = unsafe { libc::fork() };
+        if pid == 0 {
+            unsafe {
+                let lim = libc::rlimit { rlim_cur: 90, rlim_max: 100 };
+                libc::setrlimit(libc::RLIMIT_CPU, &lim);
+            }
+            run_one(chan, &a, &corpus, i);
+            unsafe { libc::_exit(0) };
+        } else if pid > 0 {
+            let mut status: libc::c_int = 0;
+            unsafe {
+                libc::waitpid(pid, &mut status, 0);
+            }
+            let died = if libc::WIFSIGNALED(status) {
+                let sig = libc::WTERMSIG(status);
+                Some(if sig == libc::SIGXCPU || sig == libc::SIGKILL { "hang".to_string() } else { format!("signal{}", sig) })
+            } else if libc::WIFEXITED(status) && libc::WEXITSTATUS(status) != 0 {
+                Some(format!("exit{}", libc::WEXITSTATUS(status)))
+            } else {
+                None
+            };
+            if let Some(reason) = died {
+                chan.send(&format!("{{\"t\":\"died\",\"run\":{},\"reason\":\"{}\"}}", i, reason));
+            }
+        } else {
+            // fork failed: run in this process
+            run_one(chan, &a, &corpus, i);
+        }
         i += a.stride;
     }
     chan.send("{\"t\":\"done\"}");
+}
+
+fn run_one(chan: &Channel, a: &WorkerArgs, corpus: &Corpus, i: u64) {
+    let mut ctx = Ctx { chan, prop: a.prop.clone(), seed: a.seed, run: i, run_seed: run_seed(a.seed, &a.prop, i), step: 0, tier: a.tier.clone(), dump: a.dump.clone(), stats: Stats::default(), digest: 0, verif: a.verif.clone() };
+    let violations: Vec<Replay> = match a.prop.as_str() {
+        "C03" => crate::c03::run(&mut ctx, corpus),
+        "C10" => crate::c10::run(&mut ctx, corpus),
+        "C14" => crate::c14::run(&mut ctx, corpus),
+        _ => panic!("unknown property"),
+    };
+    let line = serde_json::json!({"t": "end", "run": i, "steps": ctx.step, "stats": ctx.stats, "violations": violations, "digest": format!("{:016x}", ctx.digest)});
+    chan.send(&line.to_string());
 }
